@@ -19,6 +19,7 @@ func init() {
 		Assumptions: []string{"resource.Collection/Value semantics (C01/C02)"},
 		Run:         runC19,
 		Controls: []Control{
+			{Name: "updates-normal-with-nil-safe-getpaths", File: "pkg/trait/electricpb/model.go", Old: "\tif mask == nil {\n\t\treturn true // all fields are updated\n\t}\n\tfor _, path := range mask.Paths {", New: "\tfor _, path := range mask.GetPaths() {", Expect: "R19.13"},
 			{Name: "update-mode-writes-without-options", File: "pkg/trait/electricpb/model.go", Old: "m.modes.Update(mode.Id, mode, opts...)", New: "m.modes.Update(mode.Id, mode)", Expect: "R19.8"},
 			{Name: "electric-defaults-after-callers-options", File: "pkg/trait/electricpb/model_opts.go", Old: "\targs.apply(DefaultModelOptions...)\n\targs.apply(opts...)\n", New: "\targs.apply(opts...)\n\targs.apply(DefaultModelOptions...)\n", Expect: "R19.7"},
 			{Name: "update-mode-rewrites-the-mask-after-the-check", File: "pkg/trait/electricpb/model.go", Old: "\tmsg, err := m.modes.Update(mode.Id, mode, opts...)", New: "\tmsg, err := m.modes.Update(mode.Id, mode, append(opts[:len(opts):len(opts)], resource.WithUpdateMask(nil))...)", Expect: "R19.2"},
@@ -54,6 +55,8 @@ func runC19(c *an.Ctx) {
 	c.Min("R19.7", 1)
 	rWriteOptsForwarded(c, "R19.8", "pkg/trait/electricpb")
 	c.Min("R19.8", 3)
+	r1913(c, "R19.13")
+	c.Min("R19.13", 1)
 	r054as(c, "R19.10") // an empty update mask writes nothing, so the "does this write `normal`" guard and the write agree (shared with R05.4)
 	c.Min("R19.10", 1)
 	shareAs(c, "R01.2", "R19.11", r012, nil) // the after-interceptor (which stamps the start time) works on the message that is stored (shared with R01.2)
@@ -841,4 +844,36 @@ func rWriteOptsForwarded(c *an.Ctx, rule, prefix string) {
 		})
 	}
 	c.Count("writes_in_option_taking_functions", n)
+}
+
+
+// r1913: a write without an update mask writes every field, `normal` included. updatesNormal answers true for a nil
+// mask; answered false (a nil-safe GetPaths() reads a nil mask as "no paths") an unmasked UpdateMode skips the
+// one-normal-mode check and a second mode can be marked normal.
+func r1913(c *an.Ctx, rule string) {
+	fn := c.Prog.Func(elecPkg, "", "updatesNormal")
+	if fn == nil || len(fn.Params) != 1 {
+		c.Ok(rule, "pkg/trait/electricpb|no separate updatesNormal helper", 0, "")
+		return
+	}
+	name := an.FuncName(fn)
+	c.SawFunc(name)
+	okNil := false
+	for _, r := range an.Returns(fn) {
+		if len(r.Results) != 1 {
+			continue
+		}
+		b, isC := an.ConstBool(r.Results[0])
+		if !isC || !b {
+			continue
+		}
+		for _, e := range an.GuardingEdges(r) {
+			x, trueMeansNil, ok := an.NilTest(e.If.Cond)
+			if ok && x == ssa.Value(fn.Params[0]) && e.Branch == trueMeansNil {
+				okNil = true
+			}
+		}
+	}
+	c.Check(okNil, rule, name+"|a nil mask writes normal", fn.Pos(), "mask == nil -> true",
+		"updatesNormal does not answer true for a nil mask: an update without a mask (which writes every field) skips the one-normal-mode check")
 }
